@@ -62,7 +62,8 @@ ID = 'C14'
 LEVEL = 'fault_enumeration'
 RULE = ('cases = (a) histories over a pool of 1-6 tasks (names incl. unicode / blanks / dots, every '
         'status, output_dir = root/<name> for a generated subset, payload = recursive picklable values: '
-        'None, bool, int, float incl. NaN/inf, text, bytes, tuple, list, dict, numpy arrays, TaskStatus) '
+        'None, bool, int, float incl. NaN/inf, text, bytes, tuple, list, dict, numpy arrays, TaskStatus; '
+        'files of 100-2000 bytes) '
         'of <= 12 (quick) / 25 (thorough) operations: write_env, write_env interrupted after k bytes '
         '(OSError ENOSPC/EIO/EDQUOT from the write, process death, failing open) through an `open` seam '
         'in env.py, changes of the in-memory environment, disk faults on a task file (missing, output '
@@ -99,11 +100,24 @@ ASSUMPTIONS = [
     'reordered block writes are not modelled',
     'valid pickles of something that is not an environment are not produced (the property speaks of '
     'unreadable files)',
+    'Env.from_file of an intact file must return exactly {name: entry} when the entry is DONE; for a '
+    'not-DONE entry "nothing" is accepted too (the property does not demand that such entries are '
+    'persisted), a different entry is not',
+    'a failure of the code under test to leave room for a task directory (a stray file written '
+    'directly into the output root) is reported as a violation and ends the history',
 ]
-BUDGET = {'quick': {'cases': 6400, 'shards': 16, 'seconds': 150,
+BUDGET = {'quick': {'cases': 6400, 'shards': 16, 'seconds': 300,
                     'shrink_s': int(os.environ.get('C14_SHRINK_S', 40))},
-          'thorough': {'cases': 200000, 'shards': 16, 'seconds': 1100, 'shrink_s': 60}}
-FLOORS = {}
+          'thorough': {'cases': 160000, 'shards': 16, 'seconds': 900, 'shrink_s': 60}}
+# fractions of the generated cases showing the class at least once; about half of the values
+# measured on the quick tier (seed 1)
+FLOORS = {'hist': 0.7, 'nt': 0.09, 'nt:corrupt': 0.06, 'nt:oserr': 0.02, 'nt:missing': 0.01,
+          'fault-on-good-done': 0.09, 'fault:trunc': 0.04, 'fault:nulpad': 0.03, 'fault:empty': 0.025,
+          'fault:dir': 0.02, 'fault:missing': 0.02, 'fault:foreign': 0.02,
+          'write-fault-fired': 0.07, 'write-fault:kill': 0.03, 'write-fault:oserror': 0.04,
+          'write-fault:open_err': 0.02, 'read-fault-fired:eio_read': 0.02,
+          'read-fault-fired:eacces_open': 0.02, 'op:restart': 0.1, 'op:set': 0.15, 'read:subset': 0.04,
+          'sweep:trunc': 0.05, 'sweep:nulpad': 0.01, 'sweep-target:DONE': 0.04, 'odd-task-name': 0.3}
 
 STATUSES = ['WAITING', 'PENDING', 'DONE', 'FAILED', 'SKIPPED']
 FNAMES = ['valjean.env', 'valjean.env', 'env.pickle', 'e']
@@ -174,8 +188,13 @@ _OUTDIR = st.sampled_from([True, True, True, True, False])
 
 @st.composite
 def _tasks(draw):
-    return [{'name': name, 'status': draw(_STATUS), 'outdir': draw(_OUTDIR), 'extra': draw(_EXTRA)}
-            for name in draw(_names())]
+    tasks = [{'name': name, 'status': draw(_STATUS), 'outdir': draw(_OUTDIR), 'extra': draw(_EXTRA)}
+             for name in draw(_names())]
+    if draw(st.integers(0, 11)) == 0:      # now and then a file of 1-2 kB
+        which = draw(st.integers(0, len(tasks) - 1))
+        tasks[which]['extra'] = dict(tasks[which]['extra'],
+                                     captured=draw(st.binary(min_size=600, max_size=1600)))
+    return tasks
 
 
 _IDX = st.integers(0, 5)
@@ -614,6 +633,9 @@ class World:
                 else:
                     ok = ok or (isinstance(got, Mapping) and list(got) == [name]
                                 and same(self.entry(adm), got[name]))
+                    if adm['status'] != 'DONE':
+                        # the property does not demand that not-DONE entries are persisted at all
+                        ok = ok or got is None or (isinstance(got, Mapping) and len(got) == 0)
             if ok:
                 continue
             if state['kind'] == 'good':
@@ -754,11 +776,11 @@ def run_case(case):
         world.labels.add('odd-task-name')
     out.labels = sorted(world.labels)
     out.evals = max(1, world.reads)
-    out.extra_keys = sorted(world.nt_keys)
-    out.nontrivial = bool(world.nt_keys)
+    keys = sorted(world.nt_keys)
+    out.nontrivial = bool(keys)
     if out.nontrivial:
         out.labels.append('nt')
-        out.key = out.extra_keys[0]
+        out.key, out.extra_keys = keys[0], keys[1:]     # every key is counted exactly once
     out.info = {'reads': world.reads, 'nontrivial_keys': len(world.nt_keys),
                 'final_file_states': {n: world.disk[n]['kind'] for n in world.pool}}
     return out
